@@ -17,9 +17,15 @@ outcomes iff P(0) = 1/2; the in-place post-rows must be n independent commuting
 generators fixing the projected vector, the destructive post-rows n-1 such
 generators fixing <o|_j psi on the remaining qubits in their original order; an
 immediate in-place re-measurement repeats the outcome for either coin and keeps
-the group."""
+the group.
+
+Sequence stage (harness/stabseq_cases.py): measurements in place / destructive /
+through the engine wrappers among gates, standard forms, copies, comparisons on
+ONE long-lived object, every step judged against the state vector carried along
+(projected by the outcome returned) and against the threaded Lean model state."""
 from .. import core
 from .. import stabutil as su
+from .. import stabseq_cases as sq    # sequence stage: measurements among other operations on ONE long-lived object / engine
 
 LEAN_TARGETS = ["SqVerif.Props.C14"]
 PROPS_FILE = "SqVerif/Props/C14.lean"
@@ -99,8 +105,10 @@ def run(ctx):
                 "of small states (thorough: 3 per state x every position x mode). non-trivial = accepted measurement on >= 2 qubits"
                 % ctx.scale(8, 10))
     replay = getattr(ctx, "replay", None)
+    seq_descs = None                  # sequence stage: None = generate its cases, [] = skip (replay of a case of this module)
     if replay and isinstance(replay.get("input"), dict) and replay["input"].get("case"):
         descs = [su.desc_from_json(replay["input"]["case"])]
+        descs, seq_descs = ([], descs) if sq.is_seq(descs[0]) else (descs, [])
     else:
         descs = build_cases(ctx)
         res.exhaustive = True      # part (a) is a complete enumeration
@@ -110,6 +118,7 @@ def run(ctx):
         su.tie(res, queries, "Stab.measure model vs StabilizerState.measure")
         res.notes.append("tie: %d of %d observations equal at row level, %d equal only at group level" % (
             res.dist.get("tie:row_level_equal", 0), res.traces, res.dist.get("tie:row_level_differs_group_equal", 0)))
+    sq.stage(ctx, res, seq_descs, "C14")    # sequence stage (harness/stabseq_cases.py): long-lived objects, model state threaded
     return res
 
 
